@@ -1,1 +1,1 @@
-import MambaVerif.Model.Lex
+import MambaVerif.Props.C18
